@@ -162,8 +162,8 @@ var properties = map[string]propSpec{
 	},
 	"C09": {
 		Level: "model_checking", Technique: techSX,
-		Bounds:  [2]string{"8 operators x 54 datum shapes (quick: a seed-selected half / third of the (shape, operator) pairs per harness) (every reflect.Kind incl. Invalid, nil/odd elements in containers) x literal (every string <= 2 bytes + 5 fixed spellings); selector direct, through quantifier alias, map value binding, under not/or; datum root", "same"},
-		Outside: "datum shapes other than the 54 listed; literals longer than 2 symbolic bytes",
+		Bounds:  [2]string{"8 operators x 58 datum shapes (quick: a seed-selected half / third of the (shape, operator) pairs per harness) (every reflect.Kind incl. Invalid, nil/odd elements in containers) x literal (every string <= 2 bytes + 5 fixed spellings); selector direct, through quantifier alias, map value binding, under not/or; datum root", "same"},
+		Outside: "datum shapes other than the 58 listed; literals longer than 2 symbolic bytes",
 	},
 	"C02": {
 		Level: "model_checking", Technique: techSX,
